@@ -78,6 +78,7 @@ type Stats struct {
 // Net is the per-run network state.
 type Net struct {
 	P         Params
+	LastIO    time.Duration // simulated instant of the last byte written or read
 	listeners map[string]*Listener
 	conns     []*Pair
 	faults    []*Fault
@@ -468,6 +469,7 @@ func (c *Conn) Read(b []byte) (int, error) {
 			c.pending -= got
 			c.Received += int64(got)
 			simrt.Progress()
+			n.LastIO = simrt.Now()
 			simrt.RaceAcquire(unsafe.Pointer(&ioSync))
 			if n.TapRead != nil {
 				n.TapRead(c.pair.ID, 1-c.dir(), b[:got])
@@ -558,6 +560,7 @@ func (c *Conn) deliver(data []byte) {
 	simrt.Progress()
 	simrt.RaceRelease(unsafe.Pointer(&ioSync))
 	n := c.pair.n
+	n.LastIO = simrt.Now()
 	p := c.peer
 	c.Sent += int64(len(data))
 	if c.client {
